@@ -434,6 +434,33 @@ class PathEnum:
                                 r.ev.append(Ev('truth', test, fr, t))
                             out.append((r, t))
                 return out
+        if isinstance(test, ast.Compare) and fr.depth < self.max_depth:
+            # `self._helper(x) >= K`: an operand that is an inlinable call is evaluated into a temporary first (its branches become
+            # branches of this path), then the comparison is made on the value it returned
+            for operand in [test.left] + list(test.comparators):
+                if isinstance(operand, ast.Call) and self.resolver(operand, fr, p) is not None:
+                    inl = self._inline(operand, p, fr)
+                    if inl is None:
+                        break
+                    out = []
+                    for q, ret, rfr in inl:
+                        if q.exit is not None:
+                            out.append((q, None))
+                            continue
+                        if ret is None or ret is _UNKNOWN:
+                            for pol in (True, False):
+                                r = q.fork()
+                                r.ev.append(Ev('cond', test, fr, pol))
+                                out.append((r, pol))
+                            continue
+                        tmp = '__cmp%d' % len(q.ev)
+                        tn = ast.Name(id=tmp, ctx=ast.Store())
+                        asg = ast.Assign(targets=[tn], value=operand)
+                        ast.copy_location(asg, test)
+                        q.ev.append(Ev('assign', asg, fr, tn, (ret, rfr)))
+                        t2 = _replace_node(test, operand, ast.Name(id=tmp, ctx=ast.Load()))
+                        out += self.cond_paths(t2, q, fr)
+                    return out
         out = []
         q = p.fork()
         out += [(x, None) for x in self._note_calls(test, q, fr)]
